@@ -61,6 +61,8 @@ type rtPair [2]string
 type rtSetupArgs struct {
 	Type     string     `json:"type"`
 	Sk       []string   `json:"sk"`
+	Sk2      []string   `json:"sk2"`
+	Alter    int64      `json:"alter"`
 	M        int        `json:"m"`
 	Pt       int        `json:"pt"`
 	Created  []int64    `json:"created"`
@@ -79,6 +81,7 @@ type rtRowExp struct {
 	Ge   int64             `json:"ge"`
 	Slot int               `json:"slot"`
 	Wkey []rtPair          `json:"wkey"`
+	Sk   []string          `json:"sk"` // the shard key in force for the row's shard group
 }
 
 type rtGroupExp struct {
@@ -86,6 +89,7 @@ type rtGroupExp struct {
 	End    int64      `json:"end"`
 	M      int        `json:"m"`
 	Bounds [][]rtPair `json:"bounds"`
+	Sk     []string   `json:"sk"`
 }
 
 type rtSetupExp struct {
@@ -111,8 +115,9 @@ type rtPrune struct {
 }
 
 type rtModel struct {
-	Dev   []string `json:"dev"`
-	Prune rtPrune  `json:"prune"`
+	Dev []string `json:"dev"`
+	P1  rtPrune  `json:"p1"` // key sets under the original shard key
+	P2  rtPrune  `json:"p2"` // key sets under the altered shard key
 }
 
 type rtProbeArgs struct {
@@ -167,6 +172,7 @@ var rtFindingOf = map[string]string{
 	"or_keeps_other_side": "F-C11-1",
 	"paren_unknown":       "F-C11-2",
 	"buffer_not_reset":    "F-C11-3",
+	"sticky_shard_key":    "F-C11-5",
 }
 
 // ---- concretisation -------------------------------------------------------------------------------
@@ -349,12 +355,33 @@ func newRtConc(seed int64, id int, a *rtSetupArgs) *rtConc {
 	return c
 }
 
-func (e *rtEnv) sortedSk() []string {
+func (e *rtEnv) concSk(abs []string) []string {
 	var sk []string
-	for _, k := range e.args.Sk {
+	for _, k := range abs {
 		sk = append(sk, e.conc.keys[k])
 	}
 	return sk
+}
+
+func (e *rtEnv) sortedSk() []string { return e.concSk(e.args.Sk) }
+
+func (e *rtEnv) skDesc() string {
+	if e.args.Alter >= 99 {
+		return fmt.Sprint(e.sortedSk())
+	}
+	return fmt.Sprintf("%v altered to %v before group %d", e.sortedSk(), e.concSk(e.args.Sk2), e.args.Alter)
+}
+
+func sameStrings(a, b []string) bool {
+	if len(a) != len(b) {
+		return false
+	}
+	for i := range a {
+		if a[i] != b[i] {
+			return false
+		}
+	}
+	return true
 }
 
 func (e *rtEnv) mstInfo() (*meta2.MeasurementInfo, error) {
@@ -372,8 +399,13 @@ func (e *rtEnv) boundStrings(name string) []string {
 func (e *rtEnv) setup(seed int64, id int) error {
 	a := &e.args
 	c := e.conc
-	if len(a.Sk) > 1 && !(c.keys[a.Sk[0]] < c.keys[a.Sk[1]]) {
-		return fmt.Errorf("key table does not preserve the order of the shard key")
+	for _, sk := range [][]string{a.Sk, a.Sk2} {
+		if len(sk) > 1 && !(c.keys[sk[0]] < c.keys[sk[1]]) {
+			return fmt.Errorf("key table does not preserve the order of the shard key")
+		}
+	}
+	if a.Alter < 99 && a.Type != "hash" {
+		return fmt.Errorf("shard key alteration is only set up for HASH")
 	}
 	rng := rand.New(rand.NewSource(seed*31 + int64(id)))
 	data := &meta2.Data{PtNumPerNode: uint32(a.Pt)}
@@ -388,7 +420,7 @@ func (e *rtEnv) setup(seed int64, id int) error {
 		skType = influxql.RANGE
 	}
 	sk := e.sortedSk() // the parser sorts the shard key of CREATE MEASUREMENT / CREATE DATABASE
-	dbLevel := a.Type == "hash" && len(sk) > 0 && a.M == a.Pt && rng.Intn(3) == 0
+	dbLevel := a.Type == "hash" && len(sk) > 0 && a.M == a.Pt && a.Alter >= 99 && rng.Intn(3) == 0
 	var dbSk *proto2.ShardKeyInfo
 	if dbLevel {
 		dbSk = &proto2.ShardKeyInfo{ShardKey: sk, Type: proto.String(skType)}
@@ -424,7 +456,18 @@ func (e *rtEnv) setup(seed int64, id int) error {
 	// groups created before the first write, each at some instant inside its span
 	created := append([]int64(nil), a.Created...)
 	sort.Slice(created, func(i, j int) bool { return created[i] < created[j] })
+	altered := a.Alter >= 99
+	alter := func() error {
+		// ALTER MEASUREMENT .. SHARDKEY: statement_executor -> MetaClient.AlterShardKey -> meta Data.AlterShardKey
+		altered = true
+		return data.AlterShardKey(rtDB, rtRP, c.mst, &proto2.ShardKeyInfo{ShardKey: e.concSk(a.Sk2), Type: proto.String(skType)})
+	}
 	for _, g := range created {
+		if !altered && g >= a.Alter {
+			if err := alter(); err != nil {
+				return fmt.Errorf("AlterShardKey: %w", err)
+			}
+		}
 		at := c.t(g*a.Dur + int64(rng.Intn(int(a.Dur))))
 		if err := data.CreateShardGroup(rtDB, rtRP, at, util.Hot, config.TSSTORE, 0); err != nil {
 			return fmt.Errorf("CreateShardGroup(%v): %w", at, err)
@@ -437,6 +480,11 @@ func (e *rtEnv) setup(seed int64, id int) error {
 			if err := data.ReSharding(info); err != nil {
 				return fmt.Errorf("ReSharding: %w", err)
 			}
+		}
+	}
+	if !altered {
+		if err := alter(); err != nil {
+			return fmt.Errorf("AlterShardKey: %w", err)
 		}
 	}
 	if a.Type == "range" && a.Split >= 0 {
@@ -517,7 +565,7 @@ func (e *rtEnv) shardIdxes(sg *meta2.ShardGroupInfo) []int {
 // expected hash key of a row: the specification's key sequence; with an empty shard key every tag
 // of the row (including the harness's extra tag) in key order
 func (e *rtEnv) hashKey(i int) string {
-	if len(e.args.Sk) > 0 {
+	if len(e.exp.Rows[i].Sk) > 0 {
 		return e.conc.keyString(e.exp.Rows[i].Wkey)
 	}
 	var ks []string
@@ -557,7 +605,7 @@ func (e *rtEnv) staleCachePrediction(order []int) map[int]uint64 {
 			continue
 		}
 		key := msti.Name + "," + e.conc.keyString(e.exp.Rows[i].Wkey)
-		if len(e.args.Sk) == 0 {
+		if len(e.exp.Rows[i].Sk) == 0 {
 			key = msti.Name + "," + e.hashKey(i)
 		}
 		for _, sh := range pre.Shards {
@@ -583,7 +631,7 @@ func (e *rtEnv) writeRows(res *rtResult, seed int64, id int) string {
 		res.Rows++
 		if x.Acc == 0 {
 			if err == nil || len(sent) != 0 {
-				return fmt.Sprintf("row %d %v lacks a shard-key tag (shard key %v) but was accepted: err=%v sent to shards %v", i, e.crow[i].tags, e.sortedSk(), err, sent)
+				return fmt.Sprintf("row %d %v lacks a shard-key tag (shard key %v) but was accepted: err=%v sent to shards %v", i, e.crow[i].tags, e.concSk(x.Sk), err, sent)
 			}
 			continue
 		}
@@ -632,7 +680,7 @@ func (e *rtEnv) writeRows(res *rtResult, seed int64, id int) string {
 				return fmt.Sprintf("group %d hashes over %d shards, the setup says %d", sg.ID, len(idx), e.args.M)
 			}
 			key := e.hashKey(i)
-			if len(e.args.Sk) == 0 {
+			if len(x.Sk) == 0 {
 				// points_writer.go strips the measurement name from the key only when a shard key is defined
 				key = msti.Name + "," + key
 			}
@@ -642,7 +690,7 @@ func (e *rtEnv) writeRows(res *rtResult, seed int64, id int) string {
 			}
 		} else {
 			key := msti.Name + "," + e.conc.keyString(x.Wkey)
-			if len(e.args.Sk) == 0 {
+			if len(x.Sk) == 0 {
 				key = msti.Name + "," + e.hashKey(i)
 			}
 			sh := sg.Shards[pos]
@@ -702,6 +750,20 @@ func (e *rtEnv) writeRows(res *rtResult, seed int64, id int) string {
 			nsh = e.args.Pt
 		}
 		want = append(want, fmt.Sprintf("[%d,%d)x%d", e.conc.groupStart(g.Start).UnixNano(), e.conc.t(g.End).UnixNano(), nsh))
+	}
+	for gi := range rp.ShardGroups {
+		g := &rp.ShardGroups[gi]
+		for _, x := range e.exp.Groups {
+			if e.conc.groupStart(x.Start).Equal(g.StartTime) {
+				ski := msti.GetShardKey(g.ID)
+				if dbi := e.data.Database(rtDB); dbi != nil && len(dbi.ShardKey.ShardKey) > 0 {
+					ski = &dbi.ShardKey // a database-level shard key takes precedence (points_writer.go, shard_mapper.go)
+				}
+				if ski == nil || !sameStrings(ski.ShardKey, e.concSk(x.Sk)) {
+					return fmt.Sprintf("group %d [%v,%v): the measurement's shard key is %+v, the specification expects %v", g.ID, g.StartTime, g.EndTime, ski, e.concSk(x.Sk))
+				}
+			}
+		}
 	}
 	sort.Strings(got)
 	sort.Strings(want)
@@ -935,15 +997,39 @@ func rtContainsPrefix(min, max, p string) bool {
 	return gtMin && ltMax
 }
 
-// shards predicted by a symbolic pruning result of the specification
-func (e *rtEnv) predict(p *rtPrune, lo, hi int64) map[uint64]bool {
+// shards predicted by a model of the specification: per overlapping group the key set of the group's
+// shard key (p1 original, p2 altered); with deviation sticky_shard_key the first group's choice for all
+func (e *rtEnv) predict(m *rtModel, lo, hi int64) map[uint64]bool {
 	out := map[uint64]bool{}
 	rp, _ := e.data.RetentionPolicy(rtDB, rtRP)
 	msti, _ := e.mstInfo()
+	sticky := false
+	for _, d := range m.Dev {
+		sticky = sticky || d == "sticky_shard_key"
+	}
+	classOf := func(g *meta2.ShardGroupInfo) *rtPrune {
+		for _, x := range e.exp.Groups {
+			if e.conc.groupStart(x.Start).Equal(g.StartTime) {
+				if sameStrings(x.Sk, e.args.Sk) {
+					return &m.P1
+				}
+				return &m.P2
+			}
+		}
+		return &m.P1
+	}
+	var first *rtPrune
 	for gi := range rp.ShardGroups {
 		g := &rp.ShardGroups[gi]
 		if !(g.StartTime.UnixNano() <= hi && g.EndTime.UnixNano() > lo) {
 			continue
+		}
+		p := classOf(g)
+		if first == nil {
+			first = p
+		}
+		if sticky {
+			p = first
 		}
 		if p.All {
 			for _, s := range g.Shards {
@@ -1033,6 +1119,7 @@ func (e *rtEnv) probe(res *rtResult, pa *rtProbeArgs, pe *rtProbeExp) rtProbeOut
 		return rtProbeOutcome{infra: "match vector length"}
 	}
 	var missing []int
+	matching := 0
 	for i := range e.exp.Rows {
 		if e.exp.Rows[i].Acc == 0 {
 			continue
@@ -1046,13 +1133,14 @@ func (e *rtEnv) probe(res *rtResult, pa *rtProbeArgs, pe *rtProbeExp) rtProbeOut
 			continue
 		}
 		res.Checks++
+		matching++
 		if !real[e.wshard[i]] {
 			missing = append(missing, i)
 		} else if x, ok := e.extra[i]; ok && !real[x] {
 			missing = append(missing, i)
 		}
 	}
-	if !rtSetEq(real, e.predict(&rtPrune{All: true}, influxql.MinTime, influxql.MaxTime)) {
+	if !rtSetEq(real, e.allShards()) {
 		res.Narrow++
 	}
 	var design *rtModel
@@ -1064,7 +1152,7 @@ func (e *rtEnv) probe(res *rtResult, pa *rtProbeArgs, pe *rtProbeExp) rtProbeOut
 	if design == nil {
 		return rtProbeOutcome{infra: "no design model in the probe"}
 	}
-	if rtSetEq(real, e.predict(&design.Prune, lo, hi)) {
+	if rtSetEq(real, e.predict(design, lo, hi)) {
 		res.AsSpec++
 	}
 	if len(missing) == 0 {
@@ -1072,8 +1160,8 @@ func (e *rtEnv) probe(res *rtResult, pa *rtProbeArgs, pe *rtProbeExp) rtProbeOut
 	}
 	res.Diverge++
 	i := missing[0]
-	what := fmt.Sprintf("shard key %v (%s, %d shards per group): condition %s consults shards %s; row %v usage=%d t=%d satisfies it and was written to shard %d (%d of %d matching rows are outside the consulted set)",
-		e.sortedSk(), e.args.Type, e.args.M, text, rtSetStr(real), e.crow[i].tags, e.crow[i].u, e.exp.Rows[i].T, e.wshard[i], len(missing), res.Checks)
+	what := fmt.Sprintf("shard key %s (%s, %d shards per group): condition %s consults shards %s; row %v usage=%d t=%d satisfies it and was written to shard %d (%d of %d matching rows are outside the consulted set)",
+		e.skDesc(), e.args.Type, e.args.M, text, rtSetStr(real), e.crow[i].tags, e.crow[i].u, e.exp.Rows[i].T, e.wshard[i], len(missing), matching)
 	// attribution: smallest deviation set whose model predicts exactly the consulted set
 	models := append([]rtModel(nil), pe.Models...)
 	sort.SliceStable(models, func(a, b int) bool { return len(models[a].Dev) < len(models[b].Dev) })
@@ -1081,7 +1169,7 @@ func (e *rtEnv) probe(res *rtResult, pa *rtProbeArgs, pe *rtProbeExp) rtProbeOut
 		if len(m.Dev) == 0 {
 			continue
 		}
-		if rtSetEq(real, e.predict(&m.Prune, lo, hi)) {
+		if rtSetEq(real, e.predict(&m, lo, hi)) {
 			var ids []string
 			for _, d := range m.Dev {
 				f, ok := rtFindingOf[d]
@@ -1130,8 +1218,8 @@ func runRoutingCase(rc *rtCase) (res rtResult) {
 			}
 			if d := env.writeRows(&res, rc.Seed, rc.ID); d != "" {
 				res.OK = false
-				res.Detail = fmt.Sprintf("write side (shard key %v %s, %d partitions, measurement %s, group duration %v): %s",
-					env.sortedSk(), env.args.Type, env.args.Pt, env.conc.mst, env.conc.dur, d)
+				res.Detail = fmt.Sprintf("write side (shard key %s %s, %d partitions, measurement %s, group duration %v): %s",
+					env.skDesc(), env.args.Type, env.args.Pt, env.conc.mst, env.conc.dur, d)
 				return
 			}
 		case "ProbeCond":
